@@ -235,10 +235,13 @@ def _between_table():
 
 # --------------------------------------------------------------------------------------------------
 def _main_loop(fn: ast.FunctionDef) -> ast.For:
-    for st in fn.body:
-        if isinstance(st, ast.For) and "iter_idx" in ast.unparse(st.target):
-            return st
-    raise Untranslatable("the `for data, iter_idx in …` loop of training_loop was not found")
+    """the loop of `training_loop` with the `self._method(…)` calls of the Engine class inlined at their call sites"""
+    from .c16_inline import class_methods, inlined_main_loop
+
+    loop = inlined_main_loop(fn, class_methods(parse_file(REPO / E)))
+    if loop.c16_opaque:
+        raise Untranslatable(f"self-call(s) {loop.c16_opaque} in the loop body could not be inlined")
+    return loop
 
 
 CALL_SITE = {"self.log_first_training_example_and_model": ".logFirst", "validation_func": ".validationLoop",
@@ -325,7 +328,10 @@ def _amp_table():
                     walk(st.body, guards + ([g] if g else []))
                     walk(st.orelse, guards + [".other"])
                 elif isinstance(st, ast.Try):
+                    before = len(rows)
                     walk(st.body, guards)
+                    if len(rows) != before:
+                        raise Untranslatable("scaler statement inside the try block of `_do_iteration`")
                 elif isinstance(st, (ast.For, ast.While, ast.With)):
                     walk(st.body, guards)
                 else:
